@@ -27,6 +27,9 @@ DRIVERS = {
     "callback-removes-other": ["add_writer f2", "add_reader f1 removes_writer:f2", "ready f2", "ready f1", "settle",
                                "unready f2", "ready f1", "settle", "close"],
     "remove-then-close-same-fd": ["add_reader f1", "settle", "remove_reader f1", "closefd f1", "settle", "close"],
+    # a write-only registration that never became writable is removed and its fd closed; another fd then becomes readable
+    "remove-writer-then-close-fd": ["add_reader f3", "add_writer f1", "settle", "remove_writer f1", "closefd f1", "ready f3",
+                                    "settle", "close"],
     # through AddThreadSelectorEventLoop (the wrapper Tornado puts around a loop without add_reader): whatever the
     # teardown order on the asyncio side, closing the wrapper stops and joins the selector thread
     "wrapper:close": ["add_reader f1", "ready f1", "settle", "wclose"],
